@@ -192,6 +192,15 @@ class ConsumerPowerFormula(FormulaGenerator[Power]):
         component_graph = connection_manager.get().component_graph
         consumer_components = component_graph.dfs(grid, set(), consumer_component)
 
+        # Meters that also measure batteries, PV, EV chargers or CHPs below them can't be
+        # taken as consumers as a whole.  They are handled like grid meters, i.e. everything
+        # that is not a consumer is subtracted from their measurement.
+        if consumer_components and all(
+            component.category == ComponentCategory.METER
+            for component in consumer_components
+        ):
+            return self._gen_with_grid_meter(builder, consumer_components)
+
         if not consumer_components:
             _logger.warning(
                 "Unable to find any consumers in the component graph. "
